@@ -2,7 +2,7 @@
 from checks_common import three
 
 CHECK = {
-    "runs": three("c15_topic", [], scales=(0.1, 0.25, 1.0)),
+    "runs": [dict(r, scale_quick=round(r["scale"] * 3, 3)) for r in three("c15_topic", [], scales=(0.1, 0.25, 1.0))],
     "design_ref": "DESIGN.md §5 C15",
     "technique": "multi-publisher / multi-consumer stress of the real ConcurrentTransientTopic through repeated "
                  "publish -> close -> drain -> clear cycles under a perturbation policy (harness SchedInterface, futex "
